@@ -413,37 +413,44 @@ func c06VetoAndMatrixGrids(s *Shard) {
 // c06Large: requests with 63..130 alternatives (beyond one machine word of indices): a few distinct profiles among
 // many identical fillers, so that the distillations meet ties between proper subsets; every listing rotation that moves
 // another profile to the far end. Dominance, identity and listing-order clauses on each.
-func c06LargeCheck(c *Case) []Violation {
-	n := int(asF(c.Params["n"]))
-	shape := int(asF(c.Params["shape"]))
+// eleLarge: a request with n alternatives, a few distinct profiles (shape) at the given listing positions among identical
+// fillers, ids in a scrambled order, listings rotated by rot.
+func eleLarge(n, shape int, pos []int, rot int) (req M, ids []string, vals [][]float64) {
 	profiles := [][][]float64{
 		{{5, 5}, {4.5, 5}},                         // top, near (dominated by top, indifferent to it), fillers
 		{{5, 5}, {4.5, 5}, {5, 1}, {3, 5}},         // + two more profiles
 		{{5, 5}, {5, 5}, {3, 5}, {3, 5}, {2.5, 5}}, // identical pairs at two levels
 	}[shape]
-	ids := make([]string, n)
-	vals := make([][]float64, n)
+	ids = make([]string, n)
+	vals = make([][]float64, n)
 	for i := range ids {
 		ids[i] = fmt.Sprintf("n%03d", (i*37)%n) // ids in a scrambled order (37 is coprime to every n used)
 		vals[i] = []float64{1, 5}               // fillers: as good as the best on c2, far behind on c1 (partial credibility, no veto)
 	}
-	// the distinct profiles sit at the listing positions given by the case (first, around 64, last)
-	pos := toInts(c.Params["positions"])
 	for k, p := range pos {
 		if k < len(profiles) {
 			vals[p%n] = profiles[k]
 		}
 	}
+	ri := make([]string, n)
+	rv := make([][]float64, n)
+	for i := range ids {
+		ri[i], rv[i] = ids[(i+rot)%n], vals[(i+rot)%n]
+	}
+	req = genericRequest("electreIII", []string{"c1", "c2"}, -1, ri, rv, ri, []float64{1, 2})
+	for _, e := range asM(asM(req["methodParameters"])["electreCriteria"]) {
+		asM(e)["v"] = M{"b": 100.0}
+	}
+	return req, ids, vals
+}
+
+func c06LargeCheck(c *Case) []Violation {
+	n := int(asF(c.Params["n"]))
+	shape := int(asF(c.Params["shape"]))
+	pos := toInts(c.Params["positions"])
+	_, ids, vals := eleLarge(n, shape, pos, 0)
 	build := func(rot int) M {
-		ri := make([]string, n)
-		rv := make([][]float64, n)
-		for i := range ids {
-			ri[i], rv[i] = ids[(i+rot)%n], vals[(i+rot)%n]
-		}
-		req := genericRequest("electreIII", []string{"c1", "c2"}, -1, ri, rv, ri, []float64{1, 2})
-		for _, e := range asM(asM(req["methodParameters"])["electreCriteria"]) {
-			asM(e)["v"] = M{"b": 100.0}
-		}
+		req, _, _ := eleLarge(n, shape, pos, rot)
 		return req
 	}
 	base, links, errs := eleIndices(build(0))
